@@ -25,8 +25,10 @@ Coverage of the statement (properties.jsonl C25), clause → theorem(s):
 * constants → `lease_constants`
 * hypotheses that exclude inputs: expiry `< 2^32` and immutable lease count `+1 < 2^32` (Python raises `struct.error`
   there, the model packs mod 2^32); request keys distinct in `rtw_keeps_every_lease` (a Python dict).
-* not covered: the count statement of `add_lease_no_duplicate` for `renew_lease`/`allocate_buckets` (only lease
-  preservation is lifted for those); expirer-driven cancellation schedules (C26).
+* lease counts under the other server calls → `renew_lease_keeps_lease_counts` (never adds or removes a lease),
+      `allocate_no_duplicate` (the upload's lease renews where the secret is known)
+* not covered: the exact bucket-level expiry value `max(old, new)` (container level: `renew_or_add`; bucket level only
+  "not smaller"); expirer-driven cancellation schedules (C26).
 -/
 namespace Tahoe.C25
 open Tahoe.Base.File Tahoe.Storage Tahoe.Storage.Mutable Tahoe.Storage.Slot Tahoe.Generated.Storage
@@ -281,6 +283,31 @@ theorem add_lease_no_duplicate (env : Env) (b : Bucket) (hb : MixedWF b) (hexp :
   rw [addLeaseAll_lookup env _ b hok n, hl]
   refine ⟨_, rfl, rfl, ?_⟩
   exact (shareAddOrRenew_no_duplicate env f (hb (n, f) (lookup_mem hl)) (makeLease env renew cancel) hexp hk).2
+
+/-- **renew never adds or removes a lease, server level** (`StorageServer.renew_lease` over a mixed bucket): every share
+    file has exactly as many leases afterwards as before, whether the call succeeds or is interrupted by `IndexError`
+    on a share that lacks the secret -/
+theorem renew_lease_keeps_lease_counts (env : Env) (b : Bucket) (hb : MixedWF b)
+    (hexp : env.now + renewalTime < 2 ^ 32) (secret : Bytes) :
+    BucketRel SameCount b (serverRenewLease env b secret).1 := by
+  unfold serverRenewLease
+  split
+  · exact BucketRel.refl (R := SameCount) (fun _ => rfl) b
+  · exact renewAll_rel SameCount (fun _ => rfl) env secret _ (shareRenew_count env secret _ hexp) b hb
+
+/-- **renew_or_add, `allocate_buckets`**: the lease an upload puts on the shares the bucket already holds renews where
+    the renew secret is already known — that share has exactly as many leases as before — instead of adding a duplicate -/
+theorem allocate_no_duplicate (env : Env) (b : Bucket) (hb : MixedWF b) (hexp : env.now + renewalTime < 2 ^ 32)
+    (inc : Incoming) (m size : Nat) (renew cancel : Bytes)
+    (hok : (allocate env b inc m size renew cancel).2.2.2 = none)
+    (n : Nat) (f : File) (hl : lookup b n = some f) (hk : KnowsRenew env.h f renew) :
+    ∃ f', lookup (allocate env b inc m size renew cancel).1 n = some f' ∧ (leasesOf f').length = (leasesOf f).length := by
+  obtain ⟨h1, h2⟩ := allocate_eq env b inc m size renew cancel
+  rw [h2] at hok
+  rw [h1, addLeaseAll_lookup env _ b hok n, hl]
+  refine ⟨_, rfl, ?_⟩
+  exact (shareAddOrRenew_no_duplicate env f (hb (n, f) (lookup_mem hl))
+    { owner := 0, expire := env.now + renewalTime, renew := renew, cancel := cancel, nodeid := env.nodeid } hexp hk).2
 
 /-- **leases survive share data writes, server level** (`slot_testv_and_readv_and_writev`, request keys distinct as in
     a Python dict): a share that exists before and after the request keeps every (slot, lease) entry of
@@ -551,6 +578,17 @@ example :
     ((serverAddLease env b (List.replicate 32 2) (List.replicate 32 4)).1.map fun p => (leasesOf p.2).length) = [2, 2] ∧
     ((serverAddLease env b (List.replicate 32 9) (List.replicate 32 9)).1.map fun p => (leasesOf p.2).length) = [3, 3] ∧
     (serverAddLease env b (List.replicate 32 2) (List.replicate 32 4)).2 = none := by
+  decide
+
+set_option maxRecDepth 20000 in
+/-- non-vacuity for `renew_lease_keeps_lease_counts` / `allocate_no_duplicate` on the mixed example bucket -/
+example :
+    let env : Env := { h := id, nodeid := zeros 20, now := 1000, avail := 10 ^ 9, precheck := true }
+    let b : Bucket := [(0, exMut), (1, exImm)]
+    ((serverRenewLease env b (List.replicate 32 2)).1.map fun p => (leasesOf p.2).length) = [2, 2] ∧
+    (serverRenewLease env b (List.replicate 32 2)).2 = none ∧
+    ((allocate env b [] 5 10 (List.replicate 32 2) (List.replicate 32 4)).1.map fun p => (leasesOf p.2).length) = [2, 2] ∧
+    (allocate env b [] 5 10 (List.replicate 32 2) (List.replicate 32 4)).2.2 = (true, none) := by
   decide
 
 /-! ### leases survive data writes and container growth -/
